@@ -128,6 +128,17 @@ CHECKS = {
         real=REAL_COMMON, stub=['parameter reference model: invariants I-a..I-d plus table rows transcribed from zstd.h (plain read-back, boolean normalisation, updatable-mid-frame list, sticky flags observed in frame headers via the independent frame walker)'],
         assumptions=['zstd.h: "Providing a value beyond bound will either clamp it, or trigger an error (depending on parameter)" - so an accepted out-of-bounds set is not a violation as long as the value read back is inside the bounds (I-a)', '0 is tolerated by I-a for every parameter (documented as default/auto for most)', 'no schedule or clock here: the family contributes refinement of an API history against an executable model'],
     ),
+    'C17': dict(
+        level='exploration',
+        batches=[dict(scenario='c17seq', flavour='P', quick=48000, thorough=1500000), dict(scenario='c17seq', flavour='A', quick=8000, thorough=150000)],
+        rule='one sequence-level compression per run: mode in {compressSequences explicit / delimiter-free over the simulator\'s own randomised parse, the same over ZSTD_generateSequences output (raw / mergeBlockDelimiters), registered producer through compress2 / compressStream2}; every second run carries a fault: one structural corruption of the list (9 kinds), or 1-2 producer faults attached to the k-th callback (6 kinds), 1 in 8 an allocation fault; distinct = distinct plan signature; non-trivial = the frame was checked against both decoders, or a required refusal / fallback outcome was evaluated',
+        real=REAL_COMMON + ['lib/compress/zstd_compress.c sequence transcription, validation, ZSTD_generateSequences, ZSTD_mergeBlockDelimiters, producer post-processing and fallback'],
+        stub=['the sequence producer (caller-side list builder and registered callback) is the simulator: randomised greedy parser (minMatch 3..7, repcode-biased, length-capped, dictionary-aware), checked against a sequence-execution model before being offered as valid', 'independent decoder (educational decoder) + frame walker as conformance oracle'],
+        assumptions=['a list is offered as "valid" only if the sequence-execution model accepts it: offsets <= position(+dictionary while the match ends inside the window), <= window afterwards, matchLength >= max(3, ZSTD_c_minMatch), explicit blocks <= min(128 KiB, window, maxBlockSize), at most one length >= 65536 per block (format limit of the sequence store)',
+                     'definite structural violations only are required to be refused: offset > min(window, position at match start) + dictionary, matchLength <= 2, missing / malformed delimiter, block sums above or below the source or above the block size; for an empty source the list is not examined by the library and a valid empty frame is accepted',
+                     'arbitrary field corruption and producer garbage are checked for memory safety and context reusability only; delimiter-free garbage keeps its cumulative length inside the source (documented validation scope)',
+                     'producer + nbWorkers>=1 / long-distance matching: parameter_combination_unsupported or, when the input never reaches the parser, a valid frame made without calling the producer'],
+    ),
 }
 
 def default_root(tier):
